@@ -17,11 +17,14 @@ def src(name, d, compname="c1"):
 
     def block(blk):
         s = "{% block " + blk + " %}" + blk + name + "("
-        if d[blk] == "super":
+        after = blk == "a" and d.get("sa")
+        if d[blk] == "super" and not after:
             s += "{{ super() }}"
         if blk == "a" and d["nest"] and d["b"] != "none":
             inner = block("b")
             s += ("{% filter safe %}" + inner + "{% endfilter %}") if d["cap"] else inner
+        if d[blk] == "super" and after:
+            s += "{{ super() }}"
         if blk == "a" and d["inc"] and d["incpos"] == "block":
             s += inc
         return s + "){% endblock %}"
